@@ -30,15 +30,16 @@ type genStorage struct {
 type storMix struct {
 	postPlan, postOnce, del, buy, badProof, newcomerBad, attest, report, param, bank, repostSameBlock, zeroSize int
 	maxFiles                                                                                               int
+	provider                                                                                               int // per-mille per block of provider management traffic
 }
 
 var storMixes = map[string]storMix{
-	"proofs":   {postPlan: 10, postOnce: 4, del: 1, buy: 3, badProof: 25, newcomerBad: 20, attest: 3, report: 1, param: 1, bank: 1, maxFiles: 4},
-	"rewards":  {postPlan: 12, postOnce: 3, del: 1, buy: 4, badProof: 2, newcomerBad: 2, attest: 0, report: 0, param: 0, bank: 1, maxFiles: 5},
-	"usage":    {postPlan: 30, postOnce: 8, del: 14, buy: 10, badProof: 0, newcomerBad: 0, attest: 0, report: 0, param: 0, bank: 1, repostSameBlock: 6, maxFiles: 6},
-	"gauges":   {postPlan: 4, postOnce: 14, del: 0, buy: 16, badProof: 0, newcomerBad: 0, attest: 0, report: 0, param: 0, bank: 0, maxFiles: 4},
-	"attest":   {postPlan: 10, postOnce: 2, del: 1, buy: 3, badProof: 1, newcomerBad: 1, attest: 40, report: 30, param: 3, bank: 0, maxFiles: 3},
-	"mixed":    {postPlan: 14, postOnce: 5, del: 8, buy: 4, badProof: 8, newcomerBad: 8, attest: 8, report: 8, param: 1, bank: 1, repostSameBlock: 5, maxFiles: 5},
+	"proofs":   {postPlan: 10, postOnce: 4, del: 1, buy: 3, badProof: 25, newcomerBad: 20, attest: 3, report: 1, param: 1, bank: 1, maxFiles: 4, provider: 30},
+	"rewards":  {postPlan: 12, postOnce: 3, del: 1, buy: 4, badProof: 2, newcomerBad: 2, attest: 0, report: 0, param: 0, bank: 1, maxFiles: 5, provider: 20},
+	"usage":    {postPlan: 30, postOnce: 8, del: 14, buy: 10, badProof: 0, newcomerBad: 0, attest: 0, report: 0, param: 0, bank: 1, repostSameBlock: 6, maxFiles: 6, provider: 0},
+	"gauges":   {postPlan: 4, postOnce: 14, del: 0, buy: 16, badProof: 0, newcomerBad: 0, attest: 0, report: 0, param: 0, bank: 0, maxFiles: 4, provider: 0},
+	"attest":   {postPlan: 10, postOnce: 2, del: 1, buy: 3, badProof: 1, newcomerBad: 1, attest: 40, report: 30, param: 3, bank: 0, maxFiles: 3, provider: 40},
+	"mixed":    {postPlan: 14, postOnce: 5, del: 8, buy: 4, badProof: 8, newcomerBad: 8, attest: 8, report: 8, param: 1, bank: 1, repostSameBlock: 5, maxFiles: 5, provider: 120},
 }
 
 func (g *genStorage) Config(rng *Rng, tier string) Config {
@@ -210,6 +211,21 @@ func (g *genStorage) Block(w *World, b int) Block {
 			add(g.paramStep(rng))
 		}
 	}
+	if m.provider > 0 && rng.Intn(1000) < m.provider {
+		p := g.provers[rng.Intn(len(g.provers))]
+		switch rng.Intn(7) {
+		case 0, 1:
+			add(txStep(mkOp("shutdown_provider", p)))
+		case 2, 3:
+			add(txStep(mkOp("init_provider", p).withS("ip", fmt.Sprintf("https://node%d.dom%d.example", p, rng.Intn(3)))))
+		case 4:
+			add(txStep(mkOp("set_ip", p).withS("ip", fmt.Sprintf("https://n%d.dom%d.example", p, rng.Intn(3)))))
+		case 5:
+			add(txStep(mkOp("set_space", p).withN("space", rng.Range(0, 1_000_000_000_000))))
+		case 6:
+			add(txStep(mkOp("add_claimer", p).withN("target", int64(g.sink))))
+		}
+	}
 	// prover traffic
 	for f := 0; f < g.nFiles; f++ {
 		fi := w.fileInst(int64(f))
@@ -344,6 +360,10 @@ func (g *genStorage) postOp(rng *Rng, u, f int, payOnce bool) Op {
 		mx = rng.Pick64(2, 3, 4, 5, 6)
 	}
 	op := mkOp("post_file", u).withN("file", int64(f)).withN("max", mx)
+	if g.profile == "usage" || (g.profile == "mixed" && rng.Chance(1, 4)) {
+		// declared size (the chain cannot check it): from bytes to more than any plan
+		op = op.withN("size", rng.Pick64(1, 1000, 1_000_000, 400_000_000, 999_999_999, 1_000_000_000, 3_000_000_000, 40_000_000_000, 1_000_000_000_000, 60_000_000_000_000))
+	}
 	if payOnce {
 		// expiry in blocks: around a day (14400 blocks) and longer
 		op = op.withN("expires_in", rng.Pick64(14399, 14400, 14401, 20000, 100_000, 5_000_000))
